@@ -8,6 +8,14 @@ pub const FRONT_TIMEOUT_S: u32 = 2;
 pub const BACK_TIMEOUT_S: u32 = 2;
 pub const CONNECT_TIMEOUT_S: u32 = 1;
 pub const REQUEST_TIMEOUT_S: u32 = 1;
+/// front timeout of the second listener pair (back_timeout stays 2 s): a backend timer that is
+/// lost shows as an answer at this time instead of at back_timeout
+pub const LONG_FRONT_TIMEOUT_S: u32 = 9;
+/// sticky clusters per cell (one fresh refusing backend each), hosts `st<i>.test`
+pub const STICKY_SLOTS: usize = 12;
+pub const STICKY_HOSTS: [&str; STICKY_SLOTS] = [
+    "st0.test", "st1.test", "st2.test", "st3.test", "st4.test", "st5.test", "st6.test", "st7.test", "st8.test", "st9.test", "st10.test", "st11.test",
+];
 /// sozu's `CONN_RETRIES` (server.rs) — only used to size the time bound of the "refused" cause
 pub const CONNECT_ATTEMPTS: u64 = 3;
 pub const SLACK_MS: u64 = 3000;
@@ -126,6 +134,14 @@ pub enum Fault {
     IdleClose { delay_ms: u32 },
     /// the request that follows an `IdleClose` one and may hit the closed backend connection
     NextAfterIdle,
+    /// sticky cluster `st<slot>`: the cookie names the backend that refuses connections (fresh,
+    /// not marked down) while the cluster's other backend is up
+    StickyDead { slot: u8 },
+    /// control: the cookie names the live backend of the sticky cluster
+    StickyLive { slot: u8 },
+    /// the backend sends an interim response (103, or 100 to a complete request) and then
+    /// stays silent
+    InterimStall { code: u16 },
     /// HTTP/1.1 client never finishes: 0 = stops inside the header block, 1 = head without the
     /// final CRLF, 2 = complete head, half of the declared body
     ClientStall { part: u8 },
@@ -144,6 +160,7 @@ impl Fault {
             Fault::Stall { k } => format!("stall.{k}"),
             Fault::Garbage { v } => format!("garb.{v}"),
             Fault::IdleClose { delay_ms } => format!("idle.{delay_ms}"),
+            Fault::InterimStall { code } => format!("interim.{code}"),
             Fault::H2cRst { code, stage } => format!("hrst.{code}.{stage}"),
             Fault::H2cGoaway { code, stage } => format!("hgoaway.{code}.{stage}"),
             Fault::H2cClose { stage } => format!("hclose.{stage}"),
@@ -160,6 +177,7 @@ impl Fault {
             "stall" => Fault::Stall { k: n(1) as usize },
             "garb" => Fault::Garbage { v: n(1) as u8 },
             "idle" => Fault::IdleClose { delay_ms: n(1) as u32 },
+            "interim" => Fault::InterimStall { code: n(1) as u16 },
             "hrst" => Fault::H2cRst { code: n(1) as u32, stage: n(2) as u8 },
             "hgoaway" => Fault::H2cGoaway { code: n(1) as u32, stage: n(2) as u8 },
             "hclose" => Fault::H2cClose { stage: n(1) as u8 },
@@ -292,6 +310,14 @@ impl ReqSpec {
     pub fn authority(&self) -> &'static str {
         if self.fault == Fault::WrongCert { "outside.test" } else { self.host }
     }
+    /// sticky-session cookie sent with the request (default sticky name of the listeners)
+    pub fn cookie(&self) -> Option<String> {
+        match self.fault {
+            Fault::StickyDead { slot } => Some(format!("SOZUBALANCEID=dead{slot}")),
+            Fault::StickyLive { slot } => Some(format!("SOZUBALANCEID=live{slot}")),
+            _ => None,
+        }
+    }
     pub fn method(&self) -> &'static str {
         if self.upload > 0 { "POST" } else { "GET" }
     }
@@ -343,6 +369,9 @@ impl ReqSpec {
             Fault::Garbage { .. } => "backend_garbage".into(),
             Fault::IdleClose { .. } => "idle_close_prelude".into(),
             Fault::NextAfterIdle => "idle_close_then_next".into(),
+            Fault::StickyDead { .. } => "sticky_backend_refusing_sibling_up".into(),
+            Fault::StickyLive { .. } => "sticky_backend_up".into(),
+            Fault::InterimStall { .. } => "backend_silent_after_interim".into(),
             Fault::ClientStall { part: 2 } => "client_stalls_mid_body".into(),
             Fault::ClientStall { .. } => "client_never_finishes_head".into(),
             Fault::H2cRst { .. } => format!("h2c_rst_stream/{}", prog(self.progress())),
@@ -356,7 +385,9 @@ impl ReqSpec {
     /// the configured timeout that governs this cause (ms); 0 = the answer needs no timer
     pub fn governing_ms(&self) -> u64 {
         match &self.fault {
-            Fault::Stall { .. } | Fault::H2cStall { .. } => BACK_TIMEOUT_S as u64 * 1000,
+            Fault::Stall { .. } | Fault::H2cStall { .. } | Fault::InterimStall { .. } => BACK_TIMEOUT_S as u64 * 1000,
+            // up to CONN_RETRIES refused connects before the live backend is tried
+            Fault::StickyDead { .. } => CONNECT_TIMEOUT_S as u64 * 1000 * CONNECT_ATTEMPTS,
             Fault::ClientStall { .. } => FRONT_TIMEOUT_S.max(REQUEST_TIMEOUT_S).max(BACK_TIMEOUT_S) as u64 * 1000,
             Fault::Refused => CONNECT_TIMEOUT_S as u64 * 1000 * CONNECT_ATTEMPTS,
             // a backend that never acknowledges SETTINGS may legitimately be given up on
@@ -382,7 +413,7 @@ impl ReqSpec {
             "response_len": self.len, "response_framing": self.fr.name(), "upload": self.upload,
             "upload_split": self.upload_split, "backend_acts_before_request_complete": self.early,
             "fault_applies_to_attempts": if self.times == ALWAYS { "all".to_owned() } else { format!("first {}", self.times) },
-            "backend_delay_ms": self.delay_ms, "client_gap_ms": self.gap_ms,
+            "backend_delay_ms": self.delay_ms, "client_gap_ms": self.gap_ms, "cookie": self.cookie(),
         })
     }
 }
@@ -403,6 +434,8 @@ pub struct Scenario {
     /// index of the faulty request in `reqs`
     pub faulty: usize,
     pub tag: &'static str,
+    /// use the listeners whose front timeout (9 s) is longer than the back timeout (2 s)
+    pub long_front: bool,
 }
 
 impl Scenario {
@@ -420,6 +453,7 @@ impl Scenario {
         serde_json::json!({
             "scenario": self.idx, "group": self.tag, "front": self.front.name(), "multiplexing": self.mux_name(),
             "faulty_position": self.faulty,
+            "listener": if self.long_front { "front_timeout 9 s, back_timeout 2 s" } else { "front_timeout 2 s, back_timeout 2 s" },
             "requests": self.reqs.iter().map(|r| r.describe()).collect::<Vec<_>>(),
         })
     }
